@@ -189,6 +189,7 @@ func genValue(g *vgen, name string) reflect.Value {
 
 func aperEncDomain(e *emitter, roundTrip bool) {
 	g := newVgen(e.rng)
+	g.cleanBits = roundTrip
 	transfers := standaloneTypes()
 	leaves := leafTypes()
 	all := allTypeNames()
